@@ -54,6 +54,16 @@ def run(ck):
         one(ck, cls)
     reentrancy(ck, insts)
     stays_installed_during_stop(ck)
+    # what the drain waits for is the pending counter: it stands for "messages accepted and not yet through the handlers" only while every accepted message is one
+    # posted event, counted before the post and counted down after the handler ran - the hand-off structure C03 decides, claimed here under C04's own rule
+    ck.rule("C04-O9", "the counter the drain waits for is exact: one increment and one posted event per accepted message, one handler run and one decrement per event, no other writer "
+                      "(a batch queue with a coalesced wake-up, a second counter or a conditional post make 'pending == 0' say something else than 'everything accepted has been processed')")
+    from rules.c03 import handoff, only_stop_paths_stop
+    for f_ in sorted([F.flat(f) for f in F.fn_all(OT + "::process") if f.d.get("inst")], key=lambda f: f.name):
+        handoff(ck, f_, rid="C04-O9")
+    # the stop is only begun by the destructor and the aboutToQuit hook: a caller of its own has usually changed something first (cleared the pipeline the drain is to
+    # deliver into, taken a lock the worker needs)
+    only_stop_paths_stop(ck, rid="C04-O10")
 
 
 def reentrancy(ck, insts):
